@@ -50,3 +50,14 @@ def run(ctx):
     from ..engines import forestrules as FE
     FE.e13_reverse_switch_read_live(ctx)
     ctx.floor("E13", 2)
+    # the keys the table method is given: the shifts of a reverse rule are, position by position, those of its own children,
+    # and every empty child of a possibly-empty rule gets its empty rule (round 10)
+    from ..engines import sizecheck as SC3
+    SC3.s4_forest_keys(ctx)
+    for fam in SC3.strategy_families(ctx.P):
+        st3 = SC3.run_family(ctx, fam, 3, 2)
+        SC3.run_derived(ctx, fam, 3, st3)
+    ctx.floor("S4", 8)
+    from ..engines import provenance as PV3
+    PV3.a12_guard_reads_the_parameter(ctx)
+    ctx.floor("A12", 1)
